@@ -980,45 +980,53 @@ example : validate [{ typ := .dns, value := s "*.example.com" }, { typ := .ip, v
 
 /-! ## 5. api.NewOrder: one authorization per identifier -/
 
-/-- **order_authz_cover**: `api.NewOrder` stores exactly one authorization per order identifier, in
-    order; the i-th authorization backs the i-th identifier (same type, same name, same wildcard
-    flag) provided the identifier is a dns name or does not begin with `*.`; a wildcard
-    authorization of a dns name offers dns-01 only. With C10's `finalizable_order_authorizations`
-    (a finalizable order's authorizations are all valid and owned by the order's account) this is
-    "each identifier is backed by a valid authorization of the same account". The proviso is
-    needed: `pid_wildcard_unbacked`. -/
+/-- **order_authz_cover** (since /repo 77ebdfa without a proviso): `api.NewOrder` stores exactly one
+    authorization per order identifier, in order; the i-th authorization backs the i-th identifier
+    (same type, same name; only a dns name has a wildcard form, every other identifier is kept as
+    it is and not flagged), and a wildcard authorization is for a dns name and offers dns-01 only.
+    With C10's `finalizable_order_authorizations` (a finalizable order's authorizations are all
+    valid and owned by the order's account) this is "each identifier is backed by a valid
+    authorization of the same account". -/
 theorem order_authz_cover (enabled : List ChalType) (ids : List Identifier) :
     (newOrderAuthzs enabled ids).length = ids.length ∧
     ∀ (i : Nat) (id : Identifier), ids[i]? = some id →
-      ∃ a, (newOrderAuthzs enabled ids)[i]? = some a ∧
-        (id.typ = .dns ∨ isWildcard id.value = false → backs a id = true) ∧
-        a.value = trimIfWildcard id.value ∧
-        (a.wildcard = true → ∀ c ∈ a.chals, c = .dns01 ∨ a.typ ≠ .dns) := by
+      ∃ a, (newOrderAuthzs enabled ids)[i]? = some a ∧ backs a id = true ∧
+        (id.typ ≠ .dns → a.value = id.value ∧ a.wildcard = false) ∧
+        (id.typ = .dns → a.value = trimIfWildcard id.value) ∧
+        (a.wildcard = true → a.typ = .dns ∧ ∀ c ∈ a.chals, c = .dns01) := by
   refine ⟨by simp [newOrderAuthzs], ?_⟩
   intro i id h
-  refine ⟨newAuthorization enabled id, by simp [newOrderAuthzs, h], ?_, rfl, ?_⟩
-  · intro hd
-    rcases hd with hd | hd
-    · simp [backs, newAuthorization, hd]
-    · by_cases ht : id.typ = .dns
-      · simp [backs, newAuthorization, ht]
-      · simp [backs, newAuthorization, ht, hd, trimIfWildcard]
-  · intro hw c hc
-    simp [newAuthorization] at hw hc
-    cases ht : id.typ <;> simp [newAuthorization, challengeTypes, ht, hw] at hc ⊢
+  refine ⟨newAuthorization enabled id, by simp [newOrderAuthzs, h], ?_, ?_, ?_, ?_⟩
+  · by_cases ht : id.typ = .dns
+    · by_cases hw : isWildcard id.value = true
+      · simp [backs, newAuthorization, wildcardOf, ht, hw, trimIfWildcard]
+      · simp [backs, newAuthorization, wildcardOf, ht, hw, trimIfWildcard]
+    · simp [backs, newAuthorization, wildcardOf, ht]
+  · intro ht
+    simp [newAuthorization, wildcardOf, ht]
+  · intro ht
+    by_cases hw : isWildcard id.value = true <;> simp [newAuthorization, wildcardOf, ht, hw, trimIfWildcard]
+  · intro hw
+    simp [newAuthorization, wildcardOf] at hw
+    refine ⟨by simp [newAuthorization, hw.1], ?_⟩
+    intro c hc
+    simp [newAuthorization, wildcardOf, challengeTypes, hw.1, hw.2] at hc
     exact hc.1
 
-/-- **pid_wildcard_unbacked** (refutation of the clause without the proviso, finding C13-F4):
-    `newAuthorization` strips a leading `*.` from an identifier of EVERY type. For the permanent
-    identifier `*.1234` the stored authorization and its device-attest-01 challenge are for `1234`
-    (the attestation has to name `1234`), while the order keeps `*.1234` and Finalize writes
-    `*.1234` into the certificate: a name that no authorization backs. -/
-theorem pid_wildcard_unbacked :
+/-- **pid_wildcard_unbacked_historic** (finding C13-F4, fixed in /repo 77ebdfa): `newAuthorization`
+    used to strip a leading `*.` from an identifier of EVERY type. For the permanent identifier
+    `*.1234` the stored authorization and its device-attest-01 challenge were for `1234` (the
+    attestation had to name `1234`), while the order kept `*.1234` and Finalize wrote `*.1234` into
+    the certificate: a name that no authorization backed. The repaired function keeps the
+    identifier as it is. -/
+theorem pid_wildcard_unbacked_historic :
     let id : Identifier := { typ := .pid, value := s "*.1234" }
-    let a := newAuthorization [.deviceAttest01] id
+    let a := newAuthorizationHistoric [.deviceAttest01] id
     a.value = s "1234" ∧ a.chals = [.deviceAttest01] ∧ backs a id = false ∧
-    -- the authorization does back the identifier that was attested
-    backs { a with wildcard := false } { typ := .pid, value := s "1234" } = true := by decide
+    backs { a with wildcard := false } { typ := .pid, value := s "1234" } = true ∧
+    -- now
+    newAuthorization [.deviceAttest01] id = ⟨.pid, s "*.1234", false, [.deviceAttest01]⟩ ∧
+    backs (newAuthorization [.deviceAttest01] id) id = true := by decide
 
 /-- a base name's authorization does not back the wildcard name and vice versa: sharing one
     authorization between `example.com` and `*.example.com` leaves one of them unbacked -/
